@@ -59,7 +59,12 @@ def build_tree(wd, c):
         for o in flips.get(i, []):
             if o < len(data):
                 data[o] ^= 0xFF
-        if st != 'ok' or i in flips:
+        patched = False
+        for pf, po, pb in c.get('patches') or []:      # explicit byte patches (e.g. one piece copied over another)
+            if pf == i and po < len(data):
+                data[po] = pb
+                patched = True
+        if st != 'ok' or i in flips or patched:
             with open(p, 'wb') as fh:
                 fh.write(bytes(data))
     return files, orig, top
